@@ -398,3 +398,48 @@ PROPS["C20"] = dict(
                 " Added: (1) the implementation-level model of prefix.Reader (64-bit buffer, wide loads with look-ahead bits, Peek/Discard bookkeeping, ByteReader path, Flush, raw Read after repair D5) REFINES the abstract bit stream for every data, both bit orders, every source script and every history (Prefix/ReaderImpl.v, ReaderSpec.v, ReaderThms.v - 1000 lines, invariant: the buffer is bit for bit a sub-pattern of the stream window at the read position, so re-loading bytes over their own look-ahead copy is harmless); the model is run against the real Reader over scripted sources on every run (primpl, incl. PullBits over-pulls) and the specification is evaluated on those runs (prspec). (2) canonical codes for every length assignment with Kraft sum <= 1 fit their lengths and are prefix-free (Flate/Canon.v). Not proved: that GenerateLengths always yields such an assignment within the limit (finite sweep + oracle), and the Writer side of bit I/O."),
     level_note="Trusted: as C09.",
 )
+
+
+# ---- theorems added in the third session (appended to the level texts) -------------------------
+def _add(p, txt):
+    PROPS[p]["level_text"] += " " + txt
+
+_add("C01", "Added: the loop budget is irrelevant (any budget >= the one inflate picks gives the same run: Base/DepthThms.v, "
+     "Flate/Depth.v) and decoding is independent of older history (what a stream decodes to on its own it decodes to on top "
+     "of any prior output at any byte-aligned position: Flate/Compose.v); sequences of complete non-final blocks compose with "
+     "each other and with a following complete stream (scan_app, scan_then_stream).")
+_add("C04", "Added: stage 2 for EVERY block - the Reader's inverse BWT inverts the Writer's transform, periodic blocks "
+     "included (Bzip2/Bwt.v, proof through sortedness/uniqueness of the rotated list, no case split on ties), stages 2+3 "
+     "chained as encode_block/decode_block use them (bwt_mtf_roundtrip), and stage 4's code tables: for EVERY count table "
+     "the lengths the Writer assigns are within 1..20, complete, and accepted by GeneratePrefixes with a valid canonical code "
+     "(Bzip2/LengthsOfCounts.v on top of Prefix/GenLengthsThms.v). Still open: the prefix coding of the symbols/selectors "
+     "and the whole-stream composition.")
+_add("C06", "Added: for EVERY payload and mode the RFC 1951 decoder model reads a meta block - at any position, after any "
+     "history, followed by anything - as ONE dynamic-Huffman block with no output ending exactly at the block end, final bit "
+     "iff FinalStream (Meta/Deflate.v); whole index payloads are sequences of complete non-final blocks, a FinalStream "
+     "payload a complete empty stream (Meta/DeflateStream.v); such sequences compose (Flate/Compose.v). The contract K1 on "
+     "compress/flate output after a Flush (a sequence of complete non-final blocks for exactly the data, ending in the sync "
+     "marker; XFlate/RoundTripStmt.v) is evaluated by the extracted model on every chunk the real compressor produces (xk1).")
+_add("C13", "Added: an implementation-level model of prefix.Writer (64-bit buffer, 512-byte staging buffer incl. "
+     "`cntBuf -= cnt` after a short write, PushBits' wide store, bit reversal, Flush, raw Write, Try* variants; "
+     "Prefix/WriterImpl.v) run against the real Writer over scripted sinks that fail with short counts once or for ever "
+     "(WBITW), with theorems for ANY sink and history: Offset always equals the bytes the sink accepted; a sink error is "
+     "the outcome of the operation during which it happened; up to and including the first failure the sink holds a prefix "
+     "of the fault-free stream. Also proved what does NOT hold at that layer (after a short write a later Flush reports "
+     "success over duplicated bytes) - which is why every Writer above must latch the first error, as the latch model "
+     "requires.")
+_add("C16", "Added: whole payloads of any length round-trip through Writer and Reader models (Meta/Stream.v; the Writer "
+     "never fails on bytes; <= 22 bytes give one block); every block is an empty DEFLATE block for the RFC 1951 model "
+     "(Meta/Deflate.v); ReverseSearch returns exactly the start of a trailing block: the magic matches at the block's first "
+     "byte and at no later offset, header zero runs, body, trailer and zero extension included (Meta/Search.v). Not proved: "
+     "the converse (everything the decoder accepts is an empty DEFLATE block) - decided by the oracle.")
+_add("C20", "Added: (3) GenerateLengths for EVERY frequency table (counts ascending, >= 2 distinct symbols, n <= 2^maxBits, "
+     "uint32 weight wrap-around included): never a panic, lengths in 1..maxBits, Kraft sum exactly one, non-increasing "
+     "along ascending counts - the treeRotate length limiting with its transient uint32 underflow is covered "
+     "(Prefix/GenLengthsThms.v, 1400 lines); (4) GeneratePrefixes accepts exactly the sorted non-zero complete assignments "
+     "and returns the bit-reversed canonical code, prefix-free and complete in reading order, and the pipeline composes "
+     "(Prefix/GenPrefixesThms.v, GenPipelineThms.v); (5) the bit WRITER's implementation-level model refines the abstract "
+     "bit list and Writer-then-Reader at the implementation level returns every value written, both bit orders, both source "
+     "paths, every source script (Prefix/WriterThms.v). Model limits found by the proofs: gen_lengths is only faithful "
+     "for distinct symbols (the harness uses distinct symbols); GeneratePrefixes panics in Go for lengths > 27 where the "
+     "model has no panic outcome (no caller reaches it).")
